@@ -145,3 +145,27 @@ Section Hash.
     reflexivity.
   Qed.
 End Hash.
+
+(* ====================================================================================== *)
+(* CosmeticFilterCache::add_filter — where a rule is stored (Generated.RouteGen)            *)
+(* ====================================================================================== *)
+Import RouteGen.
+Section Route.
+  Variable h : str -> N.
+  Variable uw : N -> bool.
+  Definition run_route (r : crule) (c : cache) (a : raction) : cache :=
+    match a with
+    | R_add_generic_hidden =>     (* `if let Some(generic_rule) = rule.hidden_generic_rule()` *)
+        if hidden_generic r then mkCache (add_generic_rule uw (gen c) r) (db c) else c
+    | R_store_specific => mkCache (gen c) (store_rule h (db c) r)
+    | R_add_generic_self => mkCache (add_generic_rule uw (gen c) r) (db c)
+    end.
+  Definition interp_add_filter (c : cache) (r : crule) : cache :=
+    fold_left (run_route r) (if has_hostname_constraint r then constrained else unconstrained) c.
+  Theorem interp_add_filter_is_model c r : interp_add_filter c r = add_filter h uw c r.
+  Proof.
+    unfold interp_add_filter, add_filter, constrained, unconstrained.
+    destruct (has_hostname_constraint r); cbn [fold_left run_route]; [|reflexivity].
+    destruct (hidden_generic r); reflexivity.
+  Qed.
+End Route.
